@@ -128,7 +128,7 @@ fn dir_listing(dir: &str) -> String {
         m.iter().map(|(k, v)| format!("{}:{}", k, v)).collect::<Vec<_>>().join(",")
     }
     let mut temps: Vec<(u64, u64, String)> = vec![];
-    let mut counts: Option<String> = None; let mut vectors = false; let mut other: Vec<String> = vec![];
+    let mut counts: Option<String> = None; let mut vectors: Option<String> = None; let mut other: Vec<String> = vec![];
     for e in std::fs::read_dir(dir).unwrap() {
         let e = e.unwrap(); let name = e.file_name().to_string_lossy().to_string();
         let bytes = std::fs::read(e.path()).unwrap_or_default();
@@ -139,15 +139,23 @@ fn dir_listing(dir: &str) -> String {
                 _ => other.push(name),
             }
         } else if name == "kmers.counts" { counts = Some(table(&bytes)); }
-        else if name == "kmers.vectors" { vectors = true; }
+        else if name == "kmers.vectors" { vectors = Some(hex(&bytes)); }
         else { other.push(name); }
     }
     temps.sort(); other.sort();
     let mut items: Vec<String> = temps.iter().map(|(p, c, t)| format!("t{}.{}={}", p, c, t)).collect();
     if let Some(t) = counts { items.push(format!("counts={}", t)); }
-    if vectors { items.push("vectors".into()); }
+    if let Some(v) = vectors { items.push(format!("vectors={}", v)); }
     for o in other { items.push(format!("other:{}", o)); }
     items.join(";")
+}
+
+fn plant_stale(od: &str) {
+    for part in 0..20 { for chunk in 0..4 {
+        std::fs::write(format!("{}/temp_kmers.part_{}_chunk_{}", od, part, chunk), format!("{}\t7\n{}\t3\n", part, part + 100)).unwrap();
+    } }
+    std::fs::write(format!("{}/kmers.counts", od), "1\t1\n2\t2\n").unwrap();
+    std::fs::write(format!("{}/kmers.vectors", od), "stale").unwrap();
 }
 
 fn canon_counts(acgt: bool, text: &str) -> String {
@@ -385,13 +393,7 @@ pub fn exec(p: &[&str], scratch: &str) -> String {
             let limit: u64 = p[2].parse().unwrap();
             let mem = 8.0 * (limit as f64 + 0.5) / 1_000_000_000_f64;
             if (1_000_000_000_f64 * mem / 8.0) as u64 != limit { return "BAD-LIMIT".into(); }
-            if p[3] == "1" {
-                for part in 0..20 { for chunk in 0..4 {
-                    std::fs::write(format!("{}/temp_kmers.part_{}_chunk_{}", od, part, chunk), format!("{}\t7\n{}\t3\n", part, part + 100)).unwrap();
-                } }
-                std::fs::write(format!("{}/kmers.counts", od), "1\t1\n2\t2\n").unwrap();
-                std::fs::write(format!("{}/kmers.vectors", od), "stale").unwrap();
-            }
+            if p[3] == "1" { plant_stale(&od); }
             let mut c = counter::CountComputer::new(inp, od.clone(), p[1].parse().unwrap());
             c.set_threads(1);
             c.set_max_memory(mem);
@@ -400,6 +402,33 @@ pub fn exec(p: &[&str], scratch: &str) -> String {
             let a = dir_listing(&od);
             c.merge(true);
             format!("{},{}|{}|{}", parts, chunks, a, dir_listing(&od))
+        }
+        "covfs" => {
+            // covfs k bs bc norm limit plant recs : the files of `cov` (counting input = the same file), one worker
+            let d = fresh(scratch);
+            let recs = unhex_list(p[7]);
+            let inp = serialise(&recs, "fa", 0, &d, "in");
+            let od = format!("{}/out", d); std::fs::create_dir_all(&od).unwrap();
+            let limit: u64 = p[5].parse().unwrap();
+            let mem = 8.0 * (limit as f64 + 0.5) / 1_000_000_000_f64;
+            if (1_000_000_000_f64 * mem / 8.0) as u64 != limit { return "BAD-LIMIT".into(); }
+            if p[6] == "1" { plant_stale(&od); }
+            let mut c = coverage::CovComputer::new(inp.clone(), od.clone(), p[1].parse().unwrap(), p[2].parse().unwrap(), p[3].parse().unwrap());
+            c.set_norm(p[4] == "1");
+            c.set_delim(",".to_string());
+            c.set_threads(1);
+            c.set_max_memory(mem);
+            c.build_table().unwrap();
+            c.compute_coverages();
+            // partition and chunk counts are those of the counter with the same settings
+            let listing = dir_listing(&od);
+            let d2 = format!("{}/second", d); std::fs::create_dir_all(&d2).unwrap();
+            let inp2 = serialise(&recs, "fa", 0, &d2, "in");
+            let od2 = format!("{}/out", d2); std::fs::create_dir_all(&od2).unwrap();
+            let mut k2 = counter::CountComputer::new(inp2, od2, p[1].parse().unwrap());
+            k2.set_threads(1); k2.set_max_memory(mem); k2.count();
+            let (chunks, parts) = k2.verif_chunks_parts();
+            format!("{},{}|{}", parts, chunks, listing)
         }
         "readc" => {
             // readc <container> <recs> : the records as the reader and the statistics pass deliver them from a container
